@@ -92,7 +92,10 @@ def impl(case):
             f.write(i)
         f.close()
         data = open(p, 'rb').read()
-        frames = _classes(data)
+        try:
+            frames, framing_error = _classes(data), None
+        except Exception as e:      # the file is not the stream of pickles the framing model describes
+            frames, framing_error = [], '%s: %s' % (type(e).__name__, e)
         results = []
         q = os.path.join(d, 'cut.fitinfo')
         for k in range(len(data)):
@@ -123,7 +126,7 @@ def impl(case):
         for code, cls, _, _ in fr['insts']:
             if table.setdefault(code, cls) != cls:
                 raise ValueError('opcode %d maps to two classes' % code)
-    return dict(size=len(data), lens=[fr['length'] for fr in frames], ninst=[len(fr['insts']) for fr in frames],
+    return dict(size=len(data), framing_error=framing_error, lens=[fr['length'] for fr in frames], ninst=[len(fr['insts']) for fr in frames],
                 table=[[c, table[c]] for c in sorted(table)], data=list(data), results=results, nrec=len(infos))
 
 
@@ -131,7 +134,7 @@ MODEL_NEEDS_IMPL = True
 
 
 def model_requests(case, im):
-    if not isinstance(im, dict) or 'lens' not in im:
+    if not isinstance(im, dict) or 'lens' not in im or im.get('framing_error'):
         return []
     n = im['size']
     fuel = len(im['lens']) + 2
@@ -143,8 +146,8 @@ def model_requests(case, im):
 
 
 def sample(case, im, mo):
-    if not isinstance(im, dict) or 'lens' not in im:
-        return dict(case=case, impl=im)
+    if not isinstance(im, dict) or 'lens' not in im or not im['lens']:
+        return dict(case=case, impl=(im.get('framing_error') if isinstance(im, dict) else im))
     return dict(case=case, file_size=im['size'], pickle_lengths=im['lens'], opcode_classes=im['table'],
                 offsets_sample=[[k, im['results'][k]] for k in (0, im['lens'][0], sum(im['lens'][:3]), sum(im['lens'][:3]) + 5, im['size'] - 1)])
 
@@ -156,6 +159,14 @@ def judge(case, im, mo):
     if any(isinstance(m, tuple) for m in mo):
         return dict(disagree=['driver %r' % ([m for m in mo if isinstance(m, tuple)][:1],)], fail=[], nontrivial=False)
     disagree, fail = [], []
+    if im.get('framing_error'):
+        # the framing model does not apply to this file; the property itself is still judged at every offset
+        evals = 0
+        for k, res in enumerate(im['results']):
+            evals += 1
+            if res[0] == 'ok' and (not res[3] or res[1] > im['nrec']):
+                fail.append('wrong: file cut at byte %d yields %d records, and they are %s the written ones' % (k, res[1], 'a prefix of' if res[3] else 'NOT a prefix of'))
+        return dict(disagree=['the fit file is not a stream of pickles as the framing model assumes: ' + im['framing_error']], fail=fail[:5], nontrivial=False, evals=evals, tags=tags + ['framing-broken'])
     n, lens = im['size'], im['lens']
     if len(lens) != 3 + im['nrec'] or sum(lens) != n:
         disagree.append('the file does not consist of 3 header pickles + one pickle per record')
